@@ -8,19 +8,19 @@ CODEGEN_FNS = ["CodegenCtx._generate_feed_implementation", "CodegenCtx._generate
                "CodegenCtx._generate_free_implementation", "CodegenCtx._generate_code_for_int_expr", "CodegenCtx._generate_set_string", "CodegenCtx._escape_string"]
 
 SPECS = {
-    "C06": dict(families={"refine", "endfx", "coherence"}, level="translation_validation",
+    "C06": dict(families={"refine", "endfx", "coherence", "consume"}, level="translation_validation",
                 text="Per emitted program: for every state, every byte class (all 256 bytes partitioned by the transition the DFA selects) and end-of-input, for symbolic data, "
                      "the C block of that state is proved to perform exactly the step the abstract machine prescribes for the DFA transition: same next state, same output values "
                      "(buffers as arrays), same hook calls with the same argument and the same visible outputs, same consumption, same result code; start() equals the initial configuration."),
-    "C02": dict(families={"coherence"}, level="proof",
+    "C02": dict(families={"coherence", "chunk", "consume"}, level="proof",
                 text="Per emitted program: the only local of feed is inval and it equals *start at every dispatch point; the switch dispatches on state->state; every goto jpto_N/fall_N is taken "
                      "with state->state == N (so re-entering through the switch on a later call is the same continuation); yields return after the advance iff the transition consumes; "
                      "the prologue end check exists when a yield can leave start == end. Together with C06/C10 (OK only at chunk end with the state already stored) this gives chunking independence by induction on cuts."),
-    "C03": dict(families={"memsafe"}, level="proof",
+    "C03": dict(families={"memsafe", "consume"}, level="proof",
                 text="Per emitted program and storage option set: inductive invariant (0<=counter<=capacity, allocation size, live/NULL never dangling, NUL terminator at counter) established by start() "
                      "and preserved by every path of every case of feed and end; every array read/write index in bounds and through a live pointer; memcpy lengths within source literal and destination; "
                      "free() releases every heap string exactly once and NULLs it; counters fit their declared types."),
-    "C10": dict(families={"protocol", "coherence"}, level="proof",
+    "C10": dict(families={"protocol", "coherence", "chunk", "consume"}, level="proof",
                 text="Per emitted program: every return OK in feed is proved to happen only with start == end; FAIL leaves an absorbing state and does not advance; DONE/FINISH do not advance (pointer on the last byte read); "
                      "a yield returns after the advance exactly when the transition consumes. "
                      "The per-block reasoning assumes state->state == N on entry to block N; that lemma (label/state coherence of every goto) is discharged here as well."),
